@@ -275,6 +275,15 @@ func BuildTime(a rm.Vals, aux Aux) time.Time {
 	return t
 }
 
+// ResultHook, when set, is handed every non-nil typed value an API call returns (before projection).
+var ResultHook func(op string, v any)
+
+func hook(op string, v any) {
+	if ResultHook != nil {
+		ResultHook(op, v)
+	}
+}
+
 // Call invokes op on u with the neutral arguments and projects the result.
 func Call(u uhppote.IUHPPOTE, op string, serial uint32, a rm.Vals, aux Aux) (out rm.Outcome) {
 	fail := func(err error) rm.Outcome { return rm.Outcome{Err: "error: " + err.Error()} }
@@ -293,6 +302,7 @@ func Call(u uhppote.IUHPPOTE, op string, serial uint32, a rm.Vals, aux Aux) (out
 		} else if d == nil {
 			return rm.Outcome{Nil: true}
 		}
+		hook(op, d)
 		return rm.Outcome{Fields: PDevice(d)}
 
 	case "SetAddress":
@@ -302,6 +312,7 @@ func Call(u uhppote.IUHPPOTE, op string, serial uint32, a rm.Vals, aux Aux) (out
 		} else if r == nil {
 			return rm.Outcome{Nil: true}
 		}
+		hook(op, r)
 		return rm.Outcome{Fields: rm.Vals{"SerialNumber": pu(rm.Serial, uint64(r.SerialNumber)), "Succeeded": pb(r.Succeeded)}}
 
 	case "GetListener":
@@ -309,6 +320,7 @@ func Call(u uhppote.IUHPPOTE, op string, serial uint32, a rm.Vals, aux Aux) (out
 		if err != nil {
 			return fail(err)
 		}
+		hook(op, ap)
 		return rm.Outcome{Fields: rm.Vals{"AddrPort": PAddrPort(ap), "Interval": pu(rm.U8, uint64(interval))}}
 
 	case "SetListener":
@@ -322,6 +334,7 @@ func Call(u uhppote.IUHPPOTE, op string, serial uint32, a rm.Vals, aux Aux) (out
 		} else if t == nil {
 			return rm.Outcome{Nil: true}
 		}
+		hook(op, t)
 		return rm.Outcome{Fields: rm.Vals{"SerialNumber": pu(rm.Serial, uint64(t.SerialNumber)), "DateTime": PDateTime(t.DateTime)}}
 
 	case "SetTime":
@@ -331,6 +344,7 @@ func Call(u uhppote.IUHPPOTE, op string, serial uint32, a rm.Vals, aux Aux) (out
 		} else if t == nil {
 			return rm.Outcome{Nil: true}
 		}
+		hook(op, t)
 		return rm.Outcome{Fields: rm.Vals{"SerialNumber": pu(rm.Serial, uint64(t.SerialNumber)), "DateTime": PDateTime(t.DateTime)}}
 
 	case "GetDoorControlState", "SetDoorControlState":
@@ -346,6 +360,7 @@ func Call(u uhppote.IUHPPOTE, op string, serial uint32, a rm.Vals, aux Aux) (out
 		} else if s == nil {
 			return rm.Outcome{Nil: true}
 		}
+		hook(op, s)
 		return rm.Outcome{Fields: rm.Vals{"SerialNumber": pu(rm.Serial, uint64(s.SerialNumber)), "Door": pu(rm.U8, uint64(s.Door)),
 			"ControlState": pu(rm.U8, uint64(s.ControlState)), "Delay": pu(rm.U8, uint64(s.Delay))}}
 
@@ -360,6 +375,7 @@ func Call(u uhppote.IUHPPOTE, op string, serial uint32, a rm.Vals, aux Aux) (out
 		} else if s == nil {
 			return rm.Outcome{Nil: true}
 		}
+		hook(op, s)
 		return rm.Outcome{Fields: PStatus(s)}
 
 	case "GetCards":
@@ -382,6 +398,7 @@ func Call(u uhppote.IUHPPOTE, op string, serial uint32, a rm.Vals, aux Aux) (out
 		} else if c == nil {
 			return rm.Outcome{Nil: true}
 		}
+		hook(op, c)
 		return rm.Outcome{Fields: PCard(c)}
 
 	case "PutCard":
@@ -407,6 +424,7 @@ func Call(u uhppote.IUHPPOTE, op string, serial uint32, a rm.Vals, aux Aux) (out
 		} else if p == nil {
 			return rm.Outcome{Nil: true}
 		}
+		hook(op, p)
 		return rm.Outcome{Fields: PProfile(p)}
 
 	case "SetTimeProfile":
@@ -436,6 +454,7 @@ func Call(u uhppote.IUHPPOTE, op string, serial uint32, a rm.Vals, aux Aux) (out
 		} else if e == nil {
 			return rm.Outcome{Nil: true}
 		}
+		hook(op, e)
 		return rm.Outcome{Fields: PEvent(e)}
 
 	case "GetEventIndex":
@@ -445,6 +464,7 @@ func Call(u uhppote.IUHPPOTE, op string, serial uint32, a rm.Vals, aux Aux) (out
 		} else if e == nil {
 			return rm.Outcome{Nil: true}
 		}
+		hook(op, e)
 		return rm.Outcome{Fields: rm.Vals{"SerialNumber": pu(rm.Serial, uint64(e.SerialNumber)), "Index": pu(rm.U32, uint64(e.Index))}}
 
 	case "SetEventIndex":
@@ -454,6 +474,7 @@ func Call(u uhppote.IUHPPOTE, op string, serial uint32, a rm.Vals, aux Aux) (out
 		} else if e == nil {
 			return rm.Outcome{Nil: true}
 		}
+		hook(op, e)
 		return rm.Outcome{Fields: rm.Vals{"SerialNumber": pu(rm.Serial, uint64(e.SerialNumber)), "Index": pu(rm.U32, uint64(e.Index)), "Changed": pb(e.Changed)}}
 
 	case "OpenDoor":
@@ -463,6 +484,7 @@ func Call(u uhppote.IUHPPOTE, op string, serial uint32, a rm.Vals, aux Aux) (out
 		} else if r == nil {
 			return rm.Outcome{Nil: true}
 		}
+		hook(op, r)
 		return rm.Outcome{Fields: rm.Vals{"SerialNumber": pu(rm.Serial, uint64(r.SerialNumber)), "Succeeded": pb(r.Succeeded)}}
 
 	case "SetPCControl":
